@@ -7,6 +7,7 @@ import SymfcModel.Lemmas.SumRule
 import SymfcModel.Lemmas.TensorSym
 import SymfcModel.Lemmas.O1
 import SymfcModel.Gen.O1
+import SymfcModel.Lemmas.Corollaries
 namespace Symfc.C03
 open Symfc
 
@@ -149,5 +150,25 @@ theorem first_order_basis_spans_exactly_the_admissible_space {K : Type*} [Field 
     O1.sumRuleO1_kernel N w hw x]
 
 end FirstOrder
+
+section Capstone
+open Matrix
+variable {K : Type*} [Field K] [LinearOrder K] [IsStrictOrderedRing K]
+variable {n k k₂ k₃ r : Type*} [Fintype n] [Fintype k] [Fintype k₂] [DecidableEq k₂] [Fintype k₃] [DecidableEq k₃]
+  [Fintype r]
+
+/-- C03, capstone (K3): EVERY tensor `x = B c` expanded in the returned basis `B = A W₂ W₃` obeys the sum rule `T x = 0`.
+    Symbols: `T` = the sum-rule matrix on class space whose rows are the functionals `x ↦ Σ_i Φ[i a, j b, …]` (one row
+    per fixed `(a, j b, …)`: `one_row_per_fixed_indices`, `row_is_the_translational_sum`); `ν > 0` the extracted divisor
+    (`divisor_positive`); `A W₂` = `n_a_compress_mat = c_pt · c_rpt` (here ANY matrices); `W₃` = `eigvecs` =
+    `eigsh_projector_sumrule(1 − (1/ν)(A W₂)ᵀ Tᵀ T (A W₂))` under the eigen contract `EigBasis`. With
+    `sum_rule_on_every_index_for_every_atom` the sum rule then holds on every index for every atom. -/
+theorem every_basis_vector_obeys_the_sum_rule (A : Matrix n k K) (T : Matrix r n K) (ν : K)
+    (W₂ : Matrix k k₂ K) (W₃ : Matrix k₂ k₃ K)
+    (h₃ : Pipeline.EigBasis (Pipeline.sumruleProj (A * W₂) T ν) W₃) (hν : 0 < ν) (c : k₃ → K) :
+    T *ᵥ ((A * W₂ * W₃) *ᵥ c) = 0 :=
+  Corollaries.basis_vectors_obey_the_sum_rule A T ν W₂ W₃ h₃ hν c
+
+end Capstone
 
 end Symfc.C03
